@@ -66,17 +66,19 @@ def t_simulate(E):
     # invariant: the loop counter equals the iteration number
     loop.prove_invariant(E, "C12.Scan.simulate.counter_is_iteration_number", lambda i, c: zint(c[1]) == i)
     # the real loop satisfies the documented recurrence over the kernel's contract
+    def key_at(i):       # the key the real loop body hands to the kernel at iteration i (however it derives it)
+        return callee_key(E, loop.unfold(i)[0], "gf_simulate", "Scan.simulate iteration")
+
     def rec(i):
         ck, cc, cv = loop.carry_at(i)
-        ki = fold(E, ck.t, i)
-        tri = T.sim(kfn.t, ki, E.I.to_u((cv, x_at(E, xs, i))))
+        tr_i, out_i, score_i = loop.unfold(i)
+        tri = T.sim(kfn.t, key_at(i), E.I.to_u((cv, x_at(E, xs, i))))
         nk, nc, nv = loop.carry_at(i + 1)
         co, so = pair(E, T.tr_retval(tri))
-        tr_i, out_i, score_i = loop.unfold(i)
         return E.And(E.eq(tr_i, UVal(tri, "Trace")), E.eq(nv, co), E.eq(out_i, so), E.eq(score_i, SReal(T.tr_score(tri))),
-                     E.eq(nk, UVal(ki, "key")), nc.t == i + 1)
+                     nc.t == i + 1)
     E.prove("C12.Scan.simulate.iteration_i_is_kernel_on_carry_i_and_xs_i_threading_the_carry", forall_i(E, n, rec))
-    E.prove("C04.Scan.simulate.iteration_key_is_fold_in_chain", forall_i(E, n, rec))
+    loop_key_discipline(E, loop, k, key_at, lambda c: c[0], n, "Scan.simulate", 0)
     E.prove("C12.Scan.simulate.initial_carry", E.And(E.eq(loop.carry_at(z3.IntVal(0))[2], init), E.eq(loop.carry_at(z3.IntVal(0))[0], k)))
     ret = E.method(tr, "get_retval")
     E.prove("C12.Scan.simulate.retval_is_final_carry_and_stacked_outputs", E.And(
@@ -101,7 +103,7 @@ def t_simulate(E):
     E.refutable("scan.simulate", E.eq(E.method(tr, "get_score"), 0.0))
 
 
-@task("scan.assess_generate", props=["C02", "C03", "C12"], functions=FUNCS)
+@task("scan.assess_generate", props=["C02", "C03", "C04", "C12"], functions=FUNCS)
 def t_assess_generate(E):
     z3, T = E.z3, E.I.T
     sc, kfn, init, xs, n = setup(E)
@@ -123,17 +125,19 @@ def t_assess_generate(E):
     tr, w = E.method(sc, "generate", k, c, (init, xs))
     gl = the_loop(E, nb, "Scan.generate")
     gl.prove_invariant(E, "C12.Scan.generate.counter", lambda i, cy: zint(cy[1]) == i)
+    def gkey_at(i):
+        return callee_key(E, gl.unfold(i)[0], "gf_generate_tr", "Scan.generate iteration")
+
     def grec(i):
         ck, cc, cv = gl.carry_at(i)
-        ki = fold(E, ck.t, i)
         a = E.I.to_u((cv, x_at(E, xs, i)))
-        gt = T.gen_tr(kfn.t, ki, sub(i), a)
-        co, so = pair(E, T.tr_retval(gt))
         tr_i, out_i, s_i, w_i = gl.unfold(i)
+        gt = T.gen_tr(kfn.t, gkey_at(i), sub(i), a)
+        co, so = pair(E, T.tr_retval(gt))
         return E.And(E.eq(tr_i, UVal(gt, "Trace")), E.eq(gl.carry_at(i + 1)[2], co), E.eq(out_i, so),
-                     E.eq(w_i, SReal(T.cdens(gt, sub(i)))), E.eq(s_i, SReal(T.tr_score(gt))),
-                     E.eq(gl.carry_at(i + 1)[0], UVal(ki, "key")))
+                     E.eq(w_i, SReal(T.cdens(gt, sub(i)))), E.eq(s_i, SReal(T.tr_score(gt))))
     E.prove("C03.Scan.generate.iteration_i_gets_submap_i_and_its_weight", forall_i(E, n, grec))
+    loop_key_discipline(E, gl, k, gkey_at, lambda c: c[0], n, "Scan.generate", 0)
     E.prove("C03.Scan.generate.weight_is_sum_of_iteration_weights", E.eq(w, E.I.make_sum(Stacked(n, lambda i: gl.unfold(i)[3]))))
     E.prove("C12.Scan.generate.score_is_sum", E.eq(E.method(tr, "get_score"), E.I.make_sum(Stacked(n, lambda i: gl.unfold(i)[2]))))
     E.prove("C12.Scan.generate.retval", E.eq(E.method(tr, "get_retval")[0], gl.carry_at(n)[2]))
@@ -201,9 +205,12 @@ def _edit_loop(E, kind):
     P = f"Scan.edit_{kind}"
     loop.prove_invariant(E, f"C12.{P}.counter_is_iteration_number", lambda i, cy: zint(cy[1]) == i)
 
+    def key_at(i):       # the key the real loop body hands to the kernel's edit at iteration i (however it derives it)
+        return callee_key(E, loop.unfold(i)[0], "gf_edit_tr", f"{P} iteration")
+
     def parts(i):
         ck, cc, cv = loop.carry_at(i)
-        ki = fold(E, ck.t, i)
+        ki = key_at(i)
         ad_i = E.I.to_u((cv, diff(E, x_at(E, new_xs, i), UnknownChange(E))))
         a = (kfn.t, ki, inner.at(i).t, E.I.to_u(sub(i)), ad_i)
         return ki, a
@@ -219,11 +226,11 @@ def _edit_loop(E, kind):
                 "score_and_weight": E.And(E.eq(s_i, SReal(T.tr_score(et))), E.eq(w_i, SReal(T.edit_w(*a)))),
                 "backward_request": E.I.to_u(bwd_i) == want_bwd,
                 "carry_is_threaded": T.d_primal(E.I.to_u(nv)) == co.t,
-                "scanned_output": T.d_primal(E.I.to_u(out_i)) == so.t,
-                "key_chain": E.eq(nk, UVal(ki, "key"))}
-    for part in ("new_kernel_trace", "score_and_weight", "backward_request", "carry_is_threaded", "scanned_output", "key_chain"):
+                "scanned_output": T.d_primal(E.I.to_u(out_i)) == so.t}
+    for part in ("new_kernel_trace", "score_and_weight", "backward_request", "carry_is_threaded", "scanned_output"):
         E.prove(f"C12.{P}.iteration_i_edits_kernel_trace_i_with_its_subrequest_and_the_carry_of_i-1.{part}",
                 forall_i(E, n, lambda i: rec(i)[part]))
+    loop_key_discipline(E, loop, k, key_at, lambda c: c[0], n, P, 0)
     c0 = loop.carry_at(z3.IntVal(0))
     E.prove(f"C12.{P}.initial_carry_is_the_new_init", E.And(T.d_primal(E.I.to_u(c0[2])) == new_init.t, E.eq(c0[0], k)))
     E.prove(f"C05.{P}.weight_is_sum_of_iteration_weights", E.eq(w, E.I.make_sum(Stacked(n, lambda i: loop.unfold(i)[3]))))
@@ -252,7 +259,7 @@ def _edit_loop(E, kind):
                 parts=parts, old=old, inner=inner)
 
 
-@task("scan.edit_update", props=["C01", "C05", "C06", "C08", "C12"], functions=FUNCS)
+@task("scan.edit_update", props=["C01", "C04", "C05", "C06", "C08", "C12"], functions=FUNCS)
 def t_edit_update(E):
     z3, T = E.z3, E.I.T
     r = _edit_loop(E, "update")
@@ -264,7 +271,7 @@ def t_edit_update(E):
     E.refutable("scan.edit_update", E.eq(r["w"], 0.0))
 
 
-@task("scan.edit_regenerate", props=["C01", "C06", "C07", "C08", "C12"], functions=FUNCS)
+@task("scan.edit_regenerate", props=["C01", "C04", "C06", "C07", "C08", "C12"], functions=FUNCS)
 def t_edit_regenerate(E):
     z3, T = E.z3, E.I.T
     r = _edit_loop(E, "regenerate")
@@ -344,8 +351,10 @@ def t_edit_index(E):
             E.Implies(z3.Not(last), E.eq(ni.at(idx.t + 1), UVal(t2, "Trace"))))
     E.prove("C12.Scan.edit_index.frame_other_slices_unchanged", forall_i(
         E, n, lambda i: E.Implies(z3.And(i != idx.t, i != idx.t + 1), E.eq(ni.at(i), inner.at(i)))))
+    # (C06: the backward IndexRequest re-edits the same two slices; its weight is the negation of this one exactly when the
+    # forward weight is the sum of the two kernel edit weights, the second only when a next slice exists)
     E.prove("C05.Scan.edit_index.weight_is_slice_weight_plus_next_slice_weight",
-            E.eq(w, SReal(T.edit_w(*a1) + z3.If(last, z3.RealVal(0), T.edit_w(*a2)))))
+            E.eq(w, SReal(T.edit_w(*a1) + z3.If(last, z3.RealVal(0), T.edit_w(*a2)))), also=["C06"])
     E.prove("C06.Scan.edit_index.bwd_is_index_request_of_slice_bwd", E.And(
         is_obj(bwd, "IndexRequest"), E.eq(fld(E, bwd, "idx"), idx), E.I.to_u(fld(E, bwd, "request")) == T.edit_bwd(*a1)))
     ret = E.method(new, "get_retval")
